@@ -10,7 +10,7 @@ from .core import (Val, Unsupported, TPoison, T_EMPTY, T_LAMBDA, T_CLASS, T_BUIL
 
 SPEC_FORMS = {"old", "pre", "forall", "exists", "implies", "iff", "forall_obj", "forall_int", "exists_int",
               "let", "ite", "seq_eq", "is_none", "unchanged", "typeis", "elems", "idx_of", "count_int",
-              "forall_str", "fresh_obj", "unchanged_except", "to_int", "to_real", "forall_int_t", "sum_of", "sum_upto", "is_perm", "sorted_by", "stable_wrt", "ghost_int", "same", "at_head", "flat_elems"}
+              "forall_str", "fresh_obj", "unchanged_except", "to_int", "to_real", "forall_int_t", "sum_of", "sum_upto", "is_perm", "sorted_by", "stable_wrt", "ghost_int", "same", "at_head", "flat_elems", "fold_int"}
 
 
 def _forall_pat(vs, body, patterns):
@@ -89,6 +89,48 @@ def abstract_over(term, kc):
         if e.eq(kc):
             return "K"
         return "(%s %s)" % (e.decl().name() + "/" + str(e.decl().kind()), " ".join(go(c) for c in kids(e)))
+    t = go(term)
+    if fail[0]:
+        return None, None
+    return t, args
+
+
+def abstract_over2(term, kc, ac):
+    """like abstract_over, but with two holes (index kc and accumulator ac)"""
+    has = {}
+
+    def contains(e):
+        i = e.get_id()
+        if i in has:
+            return has[i]
+        if z3.is_quantifier(e):
+            r = contains(e.body())
+        elif z3.is_var(e):
+            r = False
+        else:
+            r = e.eq(kc) or e.eq(ac) or any(contains(c) for c in e.children())
+        has[i] = r
+        return r
+    args, index = [], {}
+    fail = [False]
+
+    def go(e):
+        if not contains(e):
+            if z3.is_int_value(e) or z3.is_rational_value(e) or z3.is_true(e) or z3.is_false(e):
+                return e.sexpr()
+            i = e.get_id()
+            if i not in index:
+                index[i] = len(args)
+                args.append(e)
+            return "?%d:%s" % (index[i], e.sort())
+        if z3.is_quantifier(e):
+            fail[0] = True
+            return "Q"
+        if e.eq(kc):
+            return "K"
+        if e.eq(ac):
+            return "A"
+        return "(%s %s)" % (e.decl().name(), " ".join(go(c) for c in e.children()))
     t = go(term)
     if fail[0]:
         return None, None
@@ -621,6 +663,51 @@ class CallMixin:
                 return Val(rt, acc)
             ps, bvs = self.prefix_sum_fn(n, g, rt, st, node)
             return Val(rt, ps(*bvs, upto))
+        if name == "fold_int":
+            # fold_int(seq, init, lambda acc, x: step, upto): left fold of an integer accumulator over seq[0:upto);
+            # a canonical function symbol (template of the step term) with its one-step unfolding as axiom
+            seq = self.ev(a[0], st)
+            init = self.coerce(self.ev(a[1], st), TInt, node).z
+            lam = self.ev(a[2], st)
+            n = self.list_len(seq)
+            upto = self.coerce(self.ev(a[3], st), TInt, node).z if len(a) > 3 else n
+            if self.mode == "UNROLL":
+                acc = init
+                for i in range(self.bound):
+                    ii = z3.IntVal(i)
+                    nxt = self.coerce(self.apply_fn(lam, [Val(TInt, acc), Val(seq.ty.elem, self.list_get(seq, ii))], st, node), TInt, node).z
+                    acc = z3.If(z3.And(ii < n, ii < upto), nxt, acc)
+                return Val(TInt, acc)
+            depth = getattr(self, "_sum_depth", 0)
+            kc = z3.Int("k!foldcanon%d" % depth)
+            ac = z3.Int("acc!foldcanon%d" % depth)
+            self._sum_depth = depth + 1
+            self.binders.append((kc, z3.And(kc >= 0, kc < n)))
+            try:
+                step_c = self.coerce(self.apply_fn(lam, [Val(TInt, ac), Val(seq.ty.elem, self.list_get(seq, kc))], st, node), TInt, node).z
+            finally:
+                self.binders.pop()
+                self._sum_depth = depth
+            # the accumulator must stay a hole of the template too: abstract again treating `ac` like the index
+            tpl2, targs2 = abstract_over2(step_c, kc, ac)
+            if tpl2 is None:
+                raise Unsupported("fold_int step is not abstractable", node)
+            key = ("fold", tpl2, tuple(str(x.sort()) for x in targs2))
+            if key not in self.sum_cache:
+                self.sum_cache[key] = z3.Function("fold!%d" % len(self.sum_cache), *([x.sort() for x in targs2] + [z3.IntSort(), z3.IntSort(), z3.IntSort()]))
+            F = self.sum_cache[key]
+            site = (key, tuple(x.get_id() for x in targs2), init.get_id())
+            if site not in self.sum_sites and not self.dry:
+                self.sum_sites.add(site)
+                facts = z3.And(F(*targs2, init, z3.IntVal(0)) == init,
+                               _forall_pat([kc], z3.Implies(kc >= 0, F(*targs2, init, kc + 1) ==
+                                                            z3.substitute(step_c, (ac, F(*targs2, init, kc)))),
+                                           [F(*targs2, init, kc + 1)]))
+                bvs = [bv for bv, _ in self.binders]
+                if bvs:
+                    facts = z3.ForAll(bvs, facts)
+                self.assumptions.append(facts)
+            return Val(TInt, F(*targs2, init, upto))
         if name == "flat_elems":
             # flat_elems(outer, lambda o: o.inner_list): the set of all elements of all inner lists
             outer = self.ev(a[0], st)
@@ -1198,11 +1285,16 @@ class CallMixin:
         keyf = (lambda x: self.apply_fn(key, [x], st, node)) if key is not None else (lambda x: x)
         n = self.list_len(src)
         lt = src.ty
+        gst = st
+        if key is None and self.mode != "UNROLL" and lt.elem.kind in ("Int", "Real"):
+            # a keyless sort of numbers has exactly one result: a canonical function of the argument list,
+            # axiomatised once for all lists (permutation + order)
+            return self.canonical_sorted(src, reverse)
         r = self.fresh_val(lt, "sorted")
         self.sorted_from[r.z.get_id()] = src.z
         self._keep_alive.append(r.z)
         self.trusted.add("sorted(): stable sort, result is a permutation of the argument ordered by key (A5)")
-        self.assume(self.list_len(r) == n, st)
+        self.assume(self.list_len(r) == n, gst)
 
         def le(a, b):
             ka, kb = keyf(a), keyf(b)
@@ -1240,9 +1332,9 @@ class CallMixin:
         j, k = self.qvar("j"), self.qvar("k")
         self.assume(_forall_pat([k], z3.Implies(z3.And(k >= 0, k < n), z3.And(
             pi(*bvs, k) >= 0, pi(*bvs, k) < n, self.list_get(r, k) == self.list_get(src, pi(*bvs, k)),
-            pinv(*bvs, pi(*bvs, k)) == k)), [self.list_get(r, k)]), st)
+            pinv(*bvs, pi(*bvs, k)) == k)), [self.list_get(r, k)]), gst)
         self.assume(_forall_pat([k], z3.Implies(z3.And(k >= 0, k < n), z3.And(
-            pinv(*bvs, k) >= 0, pinv(*bvs, k) < n, pi(*bvs, pinv(*bvs, k)) == k)), [self.list_get(src, k)]), st)
+            pinv(*bvs, k) >= 0, pinv(*bvs, k) < n, pi(*bvs, pinv(*bvs, k)) == k)), [self.list_get(src, k)]), gst)
         self.binders.append((j, z3.And(j >= 0, j < n)))
         self.binders.append((k, z3.And(k > j, k < n)))
         try:
@@ -1251,8 +1343,38 @@ class CallMixin:
         finally:
             self.binders.pop()
             self.binders.pop()
-        self.assume(z3.ForAll([j, k], z3.Implies(z3.And(j >= 0, j < k, k < n), z3.And(ordc, stab))), st)
+        self.assume(z3.ForAll([j, k], z3.Implies(z3.And(j >= 0, j < k, k < n), z3.And(ordc, stab))), gst)
         self.last_sorted = (r, src, pi, pinv)
+        return r
+
+    def canonical_sorted(self, src, reverse):
+        lt = src.ty
+        ls = src.z.sort()
+        tag = "%s_%s" % ("desc" if reverse else "asc", str(ls))
+        sf = self.uf("sorted_" + tag, ls, ls)
+        pi = self.uf("sortperm_" + tag, ls, z3.IntSort(), z3.IntSort())
+        pinv = self.uf("sortpinv_" + tag, ls, z3.IntSort(), z3.IntSort())
+        r = Val(lt, sf(src.z))
+        if ("sorted-axioms", tag) not in self.sum_sites:
+            self.sum_sites.add(("sorted-axioms", tag))
+            S = z3.Const("S!srt", ls)
+            j, k = z3.Ints("j!srt k!srt")
+            SV, RV = Val(lt, S), Val(lt, sf(S))
+            n = self.list_len(SV)
+            ge = (lambda a, b: a >= b) if reverse else (lambda a, b: a <= b)
+            self.assumptions += [
+                z3.ForAll([S], self.list_len(RV) == n, patterns=[sf(S)]),
+                z3.ForAll([S, k], z3.Implies(z3.And(k >= 0, k < n), z3.And(
+                    pi(S, k) >= 0, pi(S, k) < n, self.list_get(RV, k) == self.list_get(SV, pi(S, k)), pinv(S, pi(S, k)) == k)),
+                    patterns=[self.list_get(RV, k)]),
+                z3.ForAll([S, k], z3.Implies(z3.And(k >= 0, k < n), z3.And(
+                    pinv(S, k) >= 0, pinv(S, k) < n, pi(S, pinv(S, k)) == k)),
+                    patterns=[pinv(S, k)]),
+                z3.ForAll([S, j, k], z3.Implies(z3.And(j >= 0, j < k, k < n), ge(self.list_get(RV, j), self.list_get(RV, k)))),
+            ]
+        self.sorted_from[r.z.get_id()] = src.z
+        self._keep_alive.append(r.z)
+        self.trusted.add("sorted(): stable sort, result is a permutation of the argument ordered by key (A5)")
         return r
 
     def bi_super(self, args, kwargs, st, node):
@@ -1445,8 +1567,10 @@ class CallMixin:
             return self.list_concat(recv, o, node), none
         if attr == "insert":
             if len(args) != 2:
+                # TypeError at run time: a refuted safety obligation; the path ends here (as for `raise`)
                 self.oblige("safe", "arity.list.insert-takes-2-arguments", False, st, node)
-                raise Unsupported("list.insert called with %d argument(s)" % len(args), node)
+                st.ret = zor(st.ret, self.live(st))
+                return recv, none
             if k == "EmptyList":
                 recv = self.coerce(recv, TList(args[1].ty), node)
             lt = recv.ty
